@@ -271,7 +271,17 @@ def _can_return_empty(repo, fi, grow_call):
     """does some repo function whose result feeds the growth have an explicit path returning an empty list for empty input?"""
     from ..symexpr import Undecidable, summarize
     out = []
+    flow = Flow(fi)
+    arg0 = grow_call.args[0] if grow_call.args else None
+    if isinstance(arg0, ast.Name):
+        for d in flow.reaching_defs(arg0.id, arg0) or []:
+            if isinstance(d, (ast.List, ast.Tuple)) and not d.elts:
+                out.append(f"`{arg0.id}` is set to an empty list on one path")
     for n in ast.walk(Flow(fi).expand(grow_call.args[0]) if grow_call.args else grow_call):
+        if isinstance(n, ast.IfExp):
+            for br in (n.body, n.orelse):
+                if isinstance(br, (ast.List, ast.Tuple)) and not br.elts:
+                    out.append(f"the records are an empty list when {short(n.test, 40)} is {'true' if br is n.body else 'false'}")
         if isinstance(n, ast.Call):
             for cal in resolve_callees(repo, fi, n.func):
                 if cal.func is None:
